@@ -126,6 +126,23 @@ def stateSexp (exact : Bool) : State → Sexp
   | .catMulti _ c n => .list [.atom "CatMulti", ofOri c, ofOri n]
   | .roi r => .list [.atom "Roi", .atom (roiKind r)]
 
+/-- Canonical form of the `ranges` dict of a `CategoricalMultiRangeSubsetState` (keys sorted, last
+insertion wins, segments in the order stored, exact rationals). -/
+def multiTable (sel : List (Int × List (Rat × Rat))) : Sexp :=
+  .list ((categories (sel.map (·.1))).map fun k =>
+    .list [ofInt k, .list (((dictGet sel k).getD []).map fun s => .list [ofRat s.1, ofRat s.2])])
+
+/-- State description for the scale-ladder cases (`eps = auto`): the `CatMulti` description carries the
+whole segment table — the model's on exact paths, python's own (not predicted) on banded paths. -/
+def stateSexpAuto (exact : Bool) (pyState : Sexp) : State → Sexp
+  | .catMulti sel c n =>
+    let t := if exact then multiTable sel else
+      match pyState with
+      | .list [_, _, _, t] => t
+      | _ => .atom "N"
+    .list [.atom "CatMulti", ofOri c, ofOri n, t]
+  | st => stateSexp exact st
+
 def stateBranch (r : Roi) : State → String
   | .range .. => "range-num"
   | .catRoi .. => match r with | .categorical _ => "catroi" | _ => "range-cat"
@@ -140,19 +157,139 @@ def stateBranch (r : Roi) : State → String
 def grid : Rat := (1048576 : Int)
 def roundGrid (q : Rat) : Int := (q * grid + 1 / 2).floor
 
+/-! ### Scale ladder: which float paths are exact, and the band relative to the local scale
+
+Everything here is computed from the exact inputs of the case. -/
+
+def isPow2 (d : Nat) : Bool := d != 0 && (d &&& (d - 1)) == 0
+
+/-- `q` is an IEEE double: dyadic with a 53-bit significand (exponent range checked loosely; the
+ladder stays within `2^±120`, `RangeROI.to_polygon` uses `1e100`). -/
+def f64 (q : Rat) : Bool :=
+  let m := q.num.natAbs
+  isPow2 q.den && decide (Nat.log2 q.den ≤ 1000) &&
+    (m == 0 || (let l := Nat.log2 m; decide (l < 53) || (decide (l ≤ 1000) && m % 2 ^ (l - 52) == 0)))
+
+/-- matplotlib's crossing rule evaluates exactly at `p`: every difference and product it forms is a
+double (then each correctly rounded IEEE operation returns the true value). -/
+def mplExact (vs : List Pt) (p : Pt) : Bool :=
+  f64 p.x && f64 p.y &&
+  (cyclicEdges vs).all fun e =>
+    let a := e.1
+    let b := e.2
+    f64 (b.y - p.y) && f64 (a.x - b.x) && f64 (b.x - p.x) && f64 (a.y - b.y) &&
+    f64 ((b.y - p.y) * (a.x - b.x)) && f64 ((b.x - p.x) * (a.y - b.y))
+
+/-- `polygon_line_intersections(cl, xval = xv)` evaluates exactly: all intermediates of
+`y1 + (y2 - y1) * (xval - x1) / (x2 - x1)` on the crossing edges, the mid-points and the mid-point
+inside tests are doubles. -/
+def pliExact (cl : List Pt) (xv : Rat) : Bool :=
+  cl.all (fun v => f64 v.x && f64 v.y) && f64 xv &&
+  ((consecEdges cl).all fun e =>
+    let a := e.1
+    let b := e.2
+    !properCross a b xv ||
+      (let d1 := b.y - a.y
+       let d2 := xv - a.x
+       let d3 := b.x - a.x
+       f64 d1 && f64 d3 &&
+         (d1 == 0 || (f64 d2 && f64 (d1 * d2) && f64 (d1 * d2 / d3) && f64 (yAt a b xv))))) &&
+  ((consecPairs (crossingOrdinates cl xv)).all fun st =>
+    f64 (st.1 + st.2) && mplExact cl ⟨xv, (st.1 + st.2) / 2⟩)
+
+def relEps : Rat := 1 / 1048576
+
+/-- `v ↦ a·v + b` taking the region's extent on the numeric axis `ax` to `[0, 1]`. -/
+def normAxis (r : Roi) (ax : Ori) : Rat × Rat :=
+  let ext : Option (Rat × Rat) := match r with
+    | .poly vs =>
+      let cs := vs.map fun v => match ax with | .x => v.x | .y => v.y
+      some (listMin cs, listMax cs)
+    | .range ori lo hi => if ori = ax then some (min lo hi, max lo hi) else none
+    | _ => none
+  match ext with
+  | some (lo, hi) => if hi > lo then (1 / (hi - lo), -lo / (hi - lo)) else (1, -lo)
+  | none => (1, 0)
+
+/-- Region and data with every numeric axis normalised to the region's own extent
+(`selection_scale_equivariant`: the Spec verdict is the same in both coordinate systems). -/
+def normalise (r : Roi) (xc yc : Option (List Int)) (es : List Elem) : Roi × List Elem :=
+  let go (acc : Roi × List Elem) (ax : Ori) (cats : Option (List Int)) : Roi × List Elem :=
+    if cats.isSome then acc else
+      let ab := normAxis acc.1 ax
+      (acc.1.rescale ax ab.1 ab.2, acc.2.map (Elem.rescale ax ab.1 ab.2))
+  go (go (r, es) .x xc) .y yc
+
+/-- Band for a ladder case: `(ε, region, elements)` — the Spec's band `specNear ε` is evaluated on the
+returned region / elements.  `ε = 0` on the paths whose float evaluation is exact on these inputs
+(comparisons only; polygons whose every intermediate is a double); otherwise the band is relative to
+the local scale: a fraction of the radius / of the shorter side, or `2^-20` in coordinates normalised
+to the region's extent on each numeric axis. -/
+def autoPlan (r : Roi) (xc yc : Option (List Int)) (usePre : Bool) (es : List Elem) : Rat × Roi × List Elem :=
+  let onecat := xc.isSome != yc.isSome
+  let anycat := xc.isSome || yc.isSome
+  let normal : Rat × Roi × List Elem := let n := normalise r xc yc es; (relEps, n.1, n.2)
+  match r with
+  | .categorical _ => (0, r, es)
+  | .range .. => if !usePre || !anycat then (0, r, es) else normal
+  | .rect xmin xmax ymin ymax _ s =>
+    if s = 0 then (0, r, es) else
+      let w := absQ (xmax - xmin)
+      let h := absQ (ymax - ymin)
+      let m := if min w h > 0 then min w h else max w h
+      (m * relEps, r, es)
+  | .circle _ _ rad =>
+    if onecat then (rad / 900 + rad * relEps, r, es) else if anycat then (0, r, es) else (rad * relEps, r, es)
+  | .ellipse _ _ rx ry _ _ =>
+    let m := min rx ry
+    if onecat then (m / 900 + m * relEps, r, es) else (m * relEps, r, es)
+  | .poly vs =>
+    let exact := vs.all (fun v => f64 v.x && f64 v.y) &&
+      match xc, yc with
+      | some _, some _ => true
+      | none, none => es.all fun e => match e.x, e.y with
+        | .num (some x), .num (some y) => mplExact vs ⟨x, y⟩
+        | _, _ => true
+      | some cs, none => (List.range cs.length).all fun i => pliExact (closeIfOpen vs) ((i : Nat) : Int)
+      | none, some cs =>
+        (List.range cs.length).all fun i => pliExact (closeIfOpen (vs.map Pt.swap)) ((i : Nat) : Int)
+    if exact then (0, r, es) else normal
+
+/-- All coordinates of a ladder case are doubles (python receives exactly the numbers Lean sees);
+rotations `(c, s)` are exempt (python gets `atan2 s c`). -/
+def inputsF64 (r : Roi) (es : List Elem) : Bool :=
+  (match r with
+    | .range _ lo hi => f64 lo && f64 hi
+    | .rect a b c d _ _ => f64 a && f64 b && f64 c && f64 d
+    | .circle a b c => f64 a && f64 b && f64 c
+    | .ellipse a b c d _ _ => f64 a && f64 b && f64 c && f64 d
+    | .poly vs => vs.all fun v => f64 v.x && f64 v.y
+    | .categorical _ => true) &&
+  es.all fun e =>
+    (match e.x with | .num (some v) => f64 v | _ => true) &&
+    (match e.y with | .num (some v) => f64 v | _ => true)
+
 def step (line : String) : String :=
   match Sexp.parse line with
   | some (.list [.atom "sel", .list [roiE, xcol, ycol, usePreE, preE, epsE], pyout]) =>
-    match roi? roiE, column? xcol, column? ycol, usePreE.toBool?, pre? preE, rat? epsE with
-    | some r, some (xc, xs), some (yc, ys), some usePre, some pre, some ε =>
+    let auto := epsE == .atom "auto"
+    match roi? roiE, column? xcol, column? ycol, usePreE.toBool?, pre? preE,
+        (if auto then some 0 else rat? epsE) with
+    | some r, some (xc, xs), some (yc, ys), some usePre, some pre, some ε0 =>
       if xs.length ≠ ys.length then bad "sel-lengths" else
       let es := (xs.zip ys).map fun p => (⟨p.1, p.2⟩ : Elem)
+      if auto && (pre.isSome || !inputsF64 r es) then bad "sel-auto-inputs" else
       let st := roiToState r xc yc usePre
       let model := es.map (mask pre st)
       let dup := hasDup xc || hasDup yc
+      -- scale-ladder cases (`eps = auto`): the driver decides from the exact inputs whether the float
+      -- path is exact (ε = 0, boundary compared too) or banded relative to the local scale; the band is
+      -- then evaluated on `(rB, esB)` (normalised coordinates where needed).  Legacy cases carry an
+      -- absolute ε chosen by the generator (coordinates of order 1).
+      let (ε, rB, esB) : Rat × Roi × List Elem := if auto then autoPlan r xc yc usePre es else (ε0, r, es)
       -- elements whose mask entry the exact model does not predict on float-affected paths (ε > 0):
       -- the boundary band; with duplicated list entries also the elements whose occurrences disagree
-      let nears := es.map fun e => if dup then specAmbiguous ε r xc yc pre e else specNear ε r xc yc pre e
+      let nears := esB.map fun e => if dup then specAmbiguous ε rB xc yc pre e else specNear ε rB xc yc pre e
       -- python output: (xcats ycats state mask codes)
       -- Spec on the plotted positions themselves: the component built with the list as passed plots
       -- every element at the index of its label in that list (`component.codes` = `plotCoord`)
@@ -163,14 +300,18 @@ def step (line : String) : String :=
       -- a category list with duplicates gives a label several positions: the verdict must then be
       -- justified by one of them (`specMaskAny`; = `specMask` on duplicate-free lists)
       let specM : List Bool → Bool := fun m =>
-        if dup then specMaskAny ε r xc yc pre es m else specMask ε r xc yc pre es m
+        if dup then specMaskAny ε rB xc yc pre esB m else specMask ε rB xc yc pre esB m
       -- inside the band (ε > 0) the float code may legitimately differ from the exact model
       let implMask := match pyMask with
         | some pm => if pm.length == model.length ∧ ε > 0 then
             (model.zip (pm.zip nears)).map fun t => if t.2.2 then t.2.1 else t.1
           else model
         | none => model
-      let impl := Sexp.list [ofOptInts xc, ofOptInts yc, stateSexp (ε == 0) st, ofBits implMask, codes]
+      let pyState : Sexp := match pyout with
+        | .list [_, _, s, _, _] => s
+        | _ => .atom "N"
+      let impl := Sexp.list [ofOptInts xc, ofOptInts yc,
+        (if auto then stateSexpAuto (ε == 0) pyState st else stateSexp (ε == 0) st), ofBits implMask, codes]
       let ok := pyOk && match pyMask with
         | some pm => specM pm
         | none => false
@@ -181,7 +322,8 @@ def step (line : String) : String :=
         if inP then (es.zip model).all fun em =>
           specOnBoundary r xc yc pre em.1 || (em.2 == specSelected r xc yc pre em.1)
         else specM model
-      driverResult impl ok implok inP (stateBranch r st ++ orderTag xc yc)
+      driverResult impl ok implok inP
+        (stateBranch r st ++ orderTag xc yc ++ (if auto then (if ε == 0 then "+ladder-exact" else "+ladder-band") else ""))
     | _, _, _, _, _, _ => bad "sel-args"
   | some (.list [.atom "mpl", .list [vsE, ptsE], pyout]) =>
     match pts? vsE, pts? ptsE with
@@ -199,6 +341,31 @@ def step (line : String) : String :=
       let implok := (ps.zip pip).all fun t => onPolyBoundary vs t.1 || (t.2 == evenOdd vs t.1)
       driverResult impl ok implok true (if ps.any (onPolyBoundary vs) then "with-boundary" else "off-boundary")
     | _, _ => bad "mpl-args"
+  | some (.list [.atom "pli", .list [vsE, xvE, ysE, .atom "exact"], pyout]) =>
+    -- scale-ladder cases: the segments travel as exact rationals and are compared exactly whenever the
+    -- float evaluation is exact on these inputs (decided here); otherwise the band is `2^-20` of the
+    -- polygon's extent along the line
+    match pts? vsE, rat? xvE, rats? ysE with
+    | some vs, some xv, some ys =>
+      let segs := polygonLineIntersections vs xv
+      let exact := pliExact (closeIfOpen vs) xv && ys.all f64
+      let ab : Rat × Rat := if exact then (1, 0) else normAxis (.poly vs) .y
+      let ε : Rat := if exact then 0 else relEps
+      let vsB := vs.map (Pt.rescale .y ab.1 ab.2)
+      let covered (sg : List (Rat × Rat)) (y : Rat) : Bool := sg.any fun s => decide (s.1 ≤ y) && decide (y ≤ s.2)
+      let spec (sg : List (Rat × Rat)) : Bool :=
+        ys.all fun y => near ε (.poly vsB) ⟨xv, ab.1 * y + ab.2⟩ || (covered sg y == evenOdd vs ⟨xv, y⟩)
+      let pySegs : Option (List (Rat × Rat)) := do
+        let xs ← pyout.toList?
+        xs.mapM fun e => match e with
+          | .list [a, b] => do some (← rat? a, ← rat? b)
+          | _ => none
+      let impl := if exact then Sexp.list (segs.map fun s => .list [ofRat s.1, ofRat s.2]) else pyout
+      let ok := match pySegs with | some sg => spec sg | none => false
+      driverResult impl ok (spec segs) true
+        ((if segs.isEmpty then "none" else if segs.length == 1 then "one" else "several") ++
+          (if exact then "+ladder-exact" else "+ladder-band"))
+    | _, _, _ => bad "pli-exact-args"
   | some (.list [.atom "pli", .list [vsE, xvE, ysE, epsE], pyout]) =>
     match pts? vsE, rat? xvE, rats? ysE, rat? epsE with
     | some vs, some xv, some ys, some ε =>
